@@ -452,7 +452,7 @@ func init() {
 			lps := []int{3}
 			pool := 6
 			if tier == "thorough" {
-				sets = []int{-1, 0, 2, 6, 10, 11, 14, 17, 19}
+				sets = []int{-1, 0, 6, 11, 14, 17}
 				lps = []int{2, 4}
 				pool = 8
 			}
@@ -492,7 +492,7 @@ func init() {
 		},
 		Bounds: func(tier string) string {
 			if tier == "thorough" {
-				return "concurrent half: 2 routers x {route moved from POST to GET in one Updates || GET request with 405 handling; two-route transaction || reader}, every sync-granularity schedule with <=3 pre-emptions; sequential half: 9 start sets x 5 snapshot kinds (Router.Iter, read-only Txn, Txn.Snapshot before/after a write, Txn.Iter after a write) x 1 later write (7 kinds, 8-pattern pool; 2 later writes with a 4-pattern pool for the first three kinds) issued directly / in a new txn / in the same txn, then commit or abort; snapshot re-observed (All, Prefix, Routes, Has, Route, Len, Lookup of every path of 2 and 4 bytes) after every step; frozen-object monitor on everything reachable from the snapshot"
+				return "concurrent half: 2 routers x {route moved from POST to GET in one Updates || GET request with 405 handling; two-route transaction || reader}, every sync-granularity schedule with <=3 pre-emptions; sequential half: 6 start sets x 5 snapshot kinds (Router.Iter, read-only Txn, Txn.Snapshot before/after a write, Txn.Iter after a write) x 1 later write (7 kinds, 8-pattern pool; 2 later writes with a 4-pattern pool for the first three kinds) issued directly / in a new txn / in the same txn, then commit or abort; snapshot re-observed (All, Prefix, Routes, Has, Route, Len, Lookup of every path of 2 and 4 bytes) after every step; frozen-object monitor on everything reachable from the snapshot"
 			}
 			return "concurrent half: 2 routers x {route moved from POST to GET in one Updates || GET request with 405 handling; two-route transaction || reader}, every sync-granularity schedule with <=2 pre-emptions; sequential half: 2 start sets x 5 snapshot kinds (Router.Iter, read-only Txn, Txn.Snapshot before/after a write, Txn.Iter after a write) x 1 later write (7 kinds, 6-pattern pool; 2 later writes with a 4-pattern pool for the first three snapshot kinds) issued directly / in a new txn / in the same txn, then commit or abort; snapshot re-observed (All, Prefix, Routes, Has, Route, Len, Lookup of every 3-byte path) after every step; frozen-object monitor on everything reachable from the snapshot"
 		},
@@ -509,14 +509,16 @@ func init() {
 			var js []*Job
 			sets := []int{-1, 0, 6, 11, 17}
 			if tier == "thorough" {
-				sets = []int{-1, 0, 1, 2, 6, 9, 10, 11, 12, 14, 17, 19}
+				sets = []int{-1, 0, 2, 6, 10, 11, 14, 17}
 			}
 			for _, s := range sets {
 				js = append(js, &Job{Harness: "C04Txn", Params: map[string]int{"set": s, "k": 1, "pool": 12, "iter": 1}})
 				if tier == "thorough" {
-					js = append(js, &Job{Harness: "C04Txn", Params: map[string]int{"set": s, "k": 2, "pool": 8, "iter": 1}})
+					js = append(js, &Job{Harness: "C04Txn", Params: map[string]int{"set": s, "k": 2, "pool": 6, "iter": 1}})
 					js = append(js, &Job{Harness: "C04Txn", Params: map[string]int{"set": s, "k": 2, "pool": 8, "iter": 0}})
-					js = append(js, &Job{Harness: "C04Txn", Params: map[string]int{"set": s, "k": 3, "pool": 3, "iter": 0}})
+					if s <= 0 || s == 17 {
+						js = append(js, &Job{Harness: "C04Txn", Params: map[string]int{"set": s, "k": 3, "pool": 3, "iter": 0}})
+					}
 				} else {
 					if s == 0 {
 						js = append(js, &Job{Harness: "C04Txn", Params: map[string]int{"set": s, "k": 2, "pool": 4, "iter": 1}})
@@ -545,7 +547,7 @@ func init() {
 		},
 		Bounds: func(tier string) string {
 			if tier == "thorough" {
-				return "12 start sets x transactions of k<=3 writes (7 kinds, methods {GET,FOO}, pattern pool 12/8/3 for k=1/2/3; on the siblings-3 set also k<=3 over a pool holding a route on an existing branching node and routes below it) x 5 endings (Commit, Abort, Updates returning nil, Updates returning an error after j ops, Updates panicking after j ops; j symbolic in 0..k); on two start sets a snapshot of the write transaction is written to (must refuse) and settled by Commit / Abort (must neither publish nor release the writer lock); txn view, router view and a fresh read-only txn compared with the model after every step; settled-txn, double Commit/Abort, new-writer and read-only-writes obligations on every path"
+				return "8 start sets x transactions of k<=3 writes (7 kinds, methods {GET,FOO}, pattern pool 12/6..8/3 for k=1/2/3, k=3 on three of the sets; on the siblings-3 set also k<=3 over a pool holding a route on an existing branching node and routes below it) x 5 endings (Commit, Abort, Updates returning nil, Updates returning an error after j ops, Updates panicking after j ops; j symbolic in 0..k); on two start sets a snapshot of the write transaction is written to (must refuse) and settled by Commit / Abort (must neither publish nor release the writer lock); txn view, router view and a fresh read-only txn compared with the model after every step; settled-txn, double Commit/Abort, new-writer and read-only-writes obligations on every path"
 			}
 			return "4 start sets x transactions of k<=2 writes (7 kinds, methods {GET,FOO}, pattern pool 12 for k=1, 4..8 for k=2 on three start sets, with and without an iterator on the open transaction between steps; on the siblings-3 set also k=2 over a pool holding a route on an existing branching node and routes below it) x 5 endings (Commit, Abort, Updates returning nil, Updates returning an error after j ops, Updates panicking after j ops; j symbolic in 0..k); on two start sets a snapshot of the write transaction is written to (must refuse) and settled by Commit / Abort (must neither publish nor release the writer lock); txn view, router view and a fresh read-only txn compared with the model after every step; settled-txn, double Commit/Abort, new-writer and read-only-writes obligations on every path"
 		},
